@@ -39,6 +39,15 @@ structure PState where
   c2 : Comp
 deriving Inhabited
 
+/-- what the driver knows about one product -/
+structure PSlot where
+  cur : Option PState := none          -- last printed components (raw or observed): same intersection
+  raw : Option PState := none          -- components the next observation is a reduction of
+  low : Option (Nat × DNF) := none     -- exact image of the intersection through the operators applied since
+  pts : List (List Rat) := []          -- witness points of that image
+  exact : Bool := false                -- `cur` was observed and no operator has been applied since
+deriving Inhabited
+
 structure St where
   dom : String := "C"
   slots : Array (Option Slot) := Array.replicate 8 none
@@ -52,14 +61,11 @@ structure St where
   nBad : Nat := 0
   nSkip : Nat := 0
   nNote : Nat := 0
-  -- products: last claimed raw components, last observed ones, component-wise result of a `pimp`
-  praw : Array (Option PState) := Array.replicate 8 none
-  pcur : Array (Option PState) := Array.replicate 8 none
-  pcw : Option PState := none
-  pimp : Option (Nat × String × List String) := none
+  -- products
+  pslots : Array PSlot := Array.replicate 4 {}
   policy : String := ""
   nSampled : Nat := 0
-  nChanged : Nat := 0
+  nExactEnum : Nat := 0
 
 abbrev M := StateT St IO
 
@@ -306,15 +312,15 @@ def Comp.asPoly? : Comp → Option (List Con)
   | .grid false cgs _ =>
     if cgs.all (fun c => c.m == 0) then some (cgs.flatMap fun c => eqRows c.coeffs c.k) else none
 
-def Comp.isGrid : Comp → Bool
-  | .grid .. => true
-  | _ => false
-
 def Comp.mem (c : Comp) (x : List Rat) : Bool :=
   match c with
   | .poly cs => allHold cs x
   | .grid true _ _ => false
   | .grid false cgs _ => cgs.all (cgrHolds · x)
+
+def Comp.isEmptyC (n : Nat) : Comp → Bool
+  | .poly cs => !feasible n cs
+  | .grid e _ _ => e
 
 /-- `a ⊆ b` for two printings of the same kind of component; `none` = cannot decide -/
 def compSubset (n : Nat) (a b : Comp) : Option Bool :=
@@ -338,194 +344,491 @@ def PState.meet? (p : PState) : Option (List Con) :=
 
 def PState.mem (p : PState) (x : List Rat) : Bool := p.c1.mem x && p.c2.mem x
 
-/-- sample points of the intersection: lattice points of the grid component inside the other one -/
-def PState.samples (p : PState) : List (List Rat) :=
-  let pts := match p.c1, p.c2 with
-    | .grid false _ g, _ => gridSamples p.n g
-    | _, .grid false _ g => gridSamples p.n g
-    | _, _ => []
-  pts.filter p.mem
+/-- bounds of every coordinate over a constraint system (K1 `supB`): `none` = unbounded -/
+def coordBounds (n : Nat) (cs : List Con) : List (Option Rat) × List (Option Rat) :=
+  let one (i : Nat) (sgn : Int) : Option Rat :=
+    match supB n (unitRow i sgn) 0 cs with
+    | .val p q _ => some ((p : Rat) / (q : Rat) * (sgn : Rat))
+    | _ => none
+  ((List.range n).map fun i => one i (-1), (List.range n).map fun i => one i 1)
 
-inductive Incl | yes | no (why : String) | sampledOk (k : Nat)
+/-- common points of the two components: every lattice point of the grid component inside the
+    bounding box of the other one (`exhaustive = true`: these are *all* the common points), or
+    half-integer window points for two polyhedral components -/
+def PState.witnesses (p : PState) : List (List Rat) × Bool :=
+  let n := p.n
+  let go (gens : List GGen) (other : Comp) : List (List Rat) × Bool :=
+    match other.asPoly? with
+    | some cs =>
+      if !feasible n cs then ([], true)
+      else
+        let (lo, hi) := coordBounds n cs
+        let (pts, ex) := enumGrid n gens lo hi
+        (pts.filter p.mem, ex)
+    | none => ((gridSamples n gens).filter p.mem, false)
+  match p.c1, p.c2 with
+  | .grid true _ _, _ => ([], true)
+  | _, .grid true _ _ => ([], true)
+  | .grid false _ g, o => go g o
+  | o, .grid false _ g => go g o
+  | .poly a, .poly b =>
+    let cs := a ++ b
+    if !feasible n cs then ([], true)
+    else
+      let (lo, hi) := coordBounds n cs
+      ((windowPoints n lo hi).filter p.mem, false)
 
-/-- is `meet a ⊆ meet b`?  exact through K1 when both are expressible, else by sampling `a` -/
+def thin (k : Nat) (xs : List (List Rat)) : List (List Rat) :=
+  if xs.length ≤ k then xs
+  else
+    let step := xs.length / k + 1
+    (xs.zipIdx.filter fun (_, i) => i % step == 0).map (·.1)
+
+/-! #### the exact image of an operator on a constraint system (K1 reference operators) -/
+
+def pairsOf' : List String → List (Nat × Nat)
+  | a :: b :: r => (tokNat a, tokNat b) :: pairsOf' r
+  | _ => []
+
+def mapD (n : Nat) (L : DNF) (f : RefPoly → RefPoly) : Nat × DNF :=
+  let rs := L.map fun P => f ⟨true, n, P⟩
+  ((f ⟨true, n, [falseRow]⟩).n, (rs.map (·.cs)).filter fun P => P.length ≤ 60)
+
+/-- `{x + y | x ∈ P, y ∈ T}` -/
+def minkowski (n : Nat) (P T : List Con) : List Con :=
+  let rel := T.map fun c => { c with coeffs := lowHigh n c.coeffs ((padTo n c.coeffs).map (- ·)) }
+  (relImage n ⟨true, n, P⟩ rel).cs
+
+def parseCgr1 (n : Nat) (ts : List String) : Cgr × List String :=
+  match ts with
+  | m :: k :: r => let (cf, r') := takeInts n r; (⟨tokInt m, tokInt k, cf⟩, r')
+  | _ => (⟨0, 0, []⟩, [])
+
+/-- image of the lower bound `L` (dimension `n`); `Lt` = lower bound of the argument, `Mt` = its exact
+    intersection when known.  `none`: operator not modelled on constraint systems. -/
+def imageDNF (n : Nat) (L : DNF) (name : String) (args : List String)
+    (Lt : Option (Nat × DNF)) (Mt : Option (List Con)) : Option (Nat × DNF) :=
+  let keep (x : Nat × DNF) : Option (Nat × DNF) := some (x.1, x.2.filter (feasible x.1))
+  match name, args with
+  | "refine_con", a | "add_con", a => keep (n, dnfAddCons L (parseCon n a).1)
+  | "refine_cons", a | "add_cons", a => keep (n, dnfAddCons L (parseCS n a).1)
+  | "refine_cg", a | "add_cg", a =>
+    let (c, _) := parseCgr1 n a
+    if c.m == 0 then keep (n, dnfAddCons L (eqRows c.coeffs c.k))
+    else keep (n, ([-3, -2, -1, 0, 1, 2, 3] : List Int).flatMap fun j => dnfAddCons L (eqRows c.coeffs (c.k - j * c.m)))
+  | "meet", _ => Lt.bind fun (_, T) => keep (n, dnfMeet L T)
+  | "ub", _ => Lt.map fun (_, T) => (n, L ++ T)
+  | "widen", _ => some (n, L)
+  | "diff", _ => match Mt with
+    | some mt => keep (n, dnfMinus n L [mt])
+    | none => some (n, [])
+  | "concat", _ => Lt.map fun (nt, T) =>
+    (n + nt, L.flatMap fun P => T.map fun Q => (RefPoly.concat ⟨true, n, P⟩ ⟨true, nt, Q⟩).cs)
+  | "time_elapse", _ => Lt.map fun (_, T) =>
+    let T' := T.filter (feasible n)
+    if T'.isEmpty then (n, []) else (n, L ++ (L.flatMap fun P => (T'.take 2).map fun Q => minkowski n P Q))
+  | "aff_img", v :: d :: a => some (mapD n L fun p => p.affineImage (tokNat v) (parseExpr n a).1 (tokInt d))
+  | "aff_pre", v :: d :: a => some (mapD n L fun p => p.affinePreimage (tokNat v) (parseExpr n a).1 (tokInt d))
+  | "gen_img", v :: r :: d :: a =>
+    some (mapD n L fun p => p.genAffineImage (tokNat v) (parseRel r) (parseExpr n a).1 (tokInt d))
+  | "gen_pre", v :: r :: d :: a =>
+    some (mapD n L fun p => p.genAffinePreimage (tokNat v) (parseRel r) (parseExpr n a).1 (tokInt d))
+  | "gen_img2", r :: a =>
+    let (lhs, a') := parseExpr n a
+    let (rhs, _) := parseExpr n a'
+    some (mapD n L fun p => p.genAffineImage2 lhs (parseRel r) rhs)
+  | "gen_pre2", r :: a =>
+    let (lhs, a') := parseExpr n a
+    let (rhs, _) := parseExpr n a'
+    some (mapD n L fun p => p.genAffinePreimage2 lhs (parseRel r) rhs)
+  | "bnd_img", v :: d :: a =>
+    let (lb, a') := parseExpr n a
+    let (ub, _) := parseExpr n a'
+    some (mapD n L fun p => p.boundedAffineImage (tokNat v) lb ub (tokInt d))
+  | "bnd_pre", v :: d :: a =>
+    let (lb, a') := parseExpr n a
+    let (ub, _) := parseExpr n a'
+    some (mapD n L fun p => p.boundedAffinePreimage (tokNat v) lb ub (tokInt d))
+  | "unconstrain", vs => some (mapD n L fun p => p.unconstrain (vs.map tokNat))
+  | "closure", _ => some (mapD n L fun p => p.closure)
+  | "add_dims_embed", [m] => some (mapD n L fun p => p.addDimsEmbed (tokNat m))
+  | "add_dims_project", [m] => some (mapD n L fun p => p.addDimsProject (tokNat m))
+  | "remove_dims", _ :: vs => some (mapD n L fun p => p.removeDims (vs.map tokNat))
+  | "remove_higher", [m] => some (mapD n L fun p => p.removeHigherDims (tokNat m))
+  | "map_dims", nOut :: _ :: prs => some (mapD n L fun p => p.mapDims (tokNat nOut) (pairsOf' prs))
+  | "expand", [v, m] => some (mapD n L fun p => p.expandDim (tokNat v) (tokNat m))
+  | _, _ => none
+
+/-! #### pointwise witnesses of the exact image -/
+
+def imagePts (n : Nat) (pts : List (List Rat)) (name : String) (args : List String)
+    (ptsT : List (List Rat)) (memT : Option (List Rat → Bool)) : List (List Rat) :=
+  let ex (a : List String) := parseExpr n a
+  let ev (e : LinExpr) (x : List Rat) : Rat := evalE e.coeffs e.k x
+  match name, args with
+  | "refine_con", a | "add_con", a => let rows := (parseCon n a).1; pts.filter (allHold rows)
+  | "refine_cons", a | "add_cons", a => let rows := (parseCS n a).1; pts.filter (allHold rows)
+  | "refine_cg", a | "add_cg", a => let c := (parseCgr1 n a).1; pts.filter (cgrHolds c)
+  | "meet", _ => match memT with
+    | some f => pts.filter f
+    | none => []
+  | "ub", _ => pts ++ ptsT
+  | "widen", _ => pts
+  | "diff", _ => match memT with
+    | some f => pts.filter fun p => !f p
+    | none => []
+  | "concat", _ => (pts.take 20).flatMap fun p => (ptsT.take 20).map fun q => p ++ q
+  | "time_elapse", _ =>
+    if ptsT.isEmpty then []
+    else pts ++ ((pts.take 30).flatMap fun p => (ptsT.take 6).flatMap fun q =>
+      ([1, 2, 3] : List Rat).map fun l => vadd p (vsmul l q))
+  | "aff_img", v :: d :: a =>
+    let e := (ex a).1
+    pts.map fun p => setAt p (tokNat v) (ev e p / (tokInt d : Rat))
+  | "aff_pre", v :: d :: a =>
+    let e := (ex a).1; let vi := tokNat v; let dd : Rat := (tokInt d : Rat)
+    let av : Rat := ((e.coeffs.getD vi 0 : Int) : Rat)
+    pts.flatMap fun p =>
+      let pv := p.getD vi 0
+      if av != 0 then
+        -- q_v with (e(q))/d = p_v
+        let rest := ev e (setAt p vi 0)
+        [setAt p vi ((dd * pv - rest) / av)]
+      else if ev e p / dd == pv then (around pv).map (setAt p vi) else []
+  | "gen_img", v :: r :: d :: a =>
+    let e := (ex a).1; let vi := tokNat v; let dd : Rat := (tokInt d : Rat)
+    pts.flatMap fun p => (relOffsets r).map fun o => setAt p vi (ev e p / dd + o)
+  | "gen_pre", v :: r :: d :: a =>
+    let e := (ex a).1; let vi := tokNat v; let dd : Rat := (tokInt d : Rat)
+    pts.flatMap fun p =>
+      let pv := p.getD vi 0
+      ((around pv).map (setAt p vi)).filter fun q => relHolds r pv (ev e q / dd)
+  | "gen_img2", r :: a =>
+    let (lhs, a') := ex a
+    let (rhs, _) := ex a'
+    pts.flatMap fun p =>
+      match lhs.vars.head? with
+      | none => if relHolds r (ev lhs p) (ev rhs p) then [p] else []
+      | some w =>
+        let cw : Rat := ((lhs.coeffs.getD w 0 : Int) : Rat)
+        let rest := ev lhs (setAt p w 0)
+        (relOffsets r).map fun o => setAt p w ((ev rhs p + o - rest) / cw)
+  | "gen_pre2", r :: a =>
+    let (lhs, a') := ex a
+    let (rhs, _) := ex a'
+    pts.flatMap fun p =>
+      match lhs.vars.head? with
+      | none => if relHolds r (ev lhs p) (ev rhs p) then [p] else []
+      | some w =>
+        ((around (p.getD w 0)).map (setAt p w)).filter fun q => relHolds r (ev lhs p) (ev rhs q)
+  | "bnd_img", v :: d :: a =>
+    let (lb, a') := ex a
+    let (ub, _) := ex a'
+    let vi := tokNat v; let dd : Rat := (tokInt d : Rat)
+    pts.flatMap fun p =>
+      let l := ev lb p / dd; let u := ev ub p / dd
+      if l ≤ u then [setAt p vi l, setAt p vi u, setAt p vi ((l + u) / 2)] else []
+  | "bnd_pre", v :: d :: a =>
+    let (lb, a') := ex a
+    let (ub, _) := ex a'
+    let vi := tokNat v; let dd : Rat := (tokInt d : Rat)
+    pts.flatMap fun p =>
+      let pv := p.getD vi 0
+      ((around pv).map (setAt p vi)).filter fun q => decide (ev lb q / dd ≤ pv) && decide (pv ≤ ev ub q / dd)
+  | "unconstrain", vs =>
+    pts.flatMap fun p => (vs.map tokNat).flatMap fun vi => (around (p.getD vi 0)).map (setAt p vi)
+  | "closure", _ => pts
+  | "add_dims_embed", [m] => pts.flatMap fun p => ([0, 1, -(1 : Rat) / 2] : List Rat).map fun t => p ++ List.replicate (tokNat m) t
+  | "add_dims_project", [m] => pts.map fun p => p ++ List.replicate (tokNat m) 0
+  | "remove_dims", _ :: vs =>
+    let rm := vs.map tokNat
+    pts.map fun p => (p.zipIdx.filter fun (_, i) => !rm.contains i).map (·.1)
+  | "remove_higher", [m] => pts.map fun p => p.take (tokNat m)
+  | "map_dims", nOut :: _ :: prs =>
+    let pr := pairsOf' prs
+    pts.map fun p => (List.range (tokNat nOut)).map fun j =>
+      match pr.find? (fun (_, t) => t == j) with
+      | some (i, _) => p.getD i 0
+      | none => 0
+  | "expand", [v, m] => pts.map fun p => p ++ List.replicate (tokNat m) (p.getD (tokNat v) 0)
+  | "fold", k :: rest =>
+    let vs := (rest.take (tokNat k)).map tokNat
+    let dest := tokNat (rest.getD (tokNat k) "0")
+    pts.flatMap fun p =>
+      let drop (q : List Rat) := (q.zipIdx.filter fun (_, i) => !vs.contains i).map (·.1)
+      let destNew := dest - (vs.filter (· < dest)).length
+      drop p :: vs.map fun w => (drop p).set destNew (p.getD w 0)
+  | _, _ => []
+
+/-! #### judgements -/
+
+inductive Incl | yes | no (why : String) | enumOk (k : Nat) (exact : Bool)
+
+/-- is `meet a ⊆ meet b`?  exactly through K1 when both are expressible, else on the enumerated
+    common points of `a` -/
 def meetSubset (a b : PState) : Incl :=
   match a.meet?, b.meet? with
   | some x, some y => if subsetB a.n x y then .yes else .no "K1"
   | _, _ =>
-    let ss := a.samples
+    let (ss, ex) := a.witnesses
     match ss.find? (fun x => !b.mem x) with
-    | some x => .no s!"sample point {x}"
-    | none => .sampledOk ss.length
+    | some x => .no s!"common point {x}"
+    | none => .enumOk ss.length ex
 
-def verdictIncl (ln : Nat) (what : String) (r : Incl) : M Bool := do
-  match r with
-  | .yes => return true
-  | .sampledOk k => modify (fun st => { st with nSampled := st.nSampled + k }); return true
-  | .no why => bad ln s!"{what} ({why})"; return false
+def okEnum (ln : Nat) (k : Nat) (exact : Bool) : M Unit := do
+  modify fun st => { st with nSampled := st.nSampled + k, nOk := st.nOk + 1,
+                             nExactEnum := st.nExactEnum + (if exact then 1 else 0) }
+  IO.println s!"ok {ln} {if exact then "exhaustive" else "sampled"} {k}"
 
-def Comp.isEmptyC (n : Nat) : Comp → Bool
-  | .poly cs => !feasible n cs
-  | .grid e _ _ => e
-
-/-- `pobs` after `praw`: components shrink, intersection unchanged -/
-def judgeReduce (ln : Nat) (what : String) (raw obs : PState) : M Unit := do
+/-- `pobs` after `praw`: components shrink, intersection unchanged; returns `false` after a report -/
+def judgeReduce (ln : Nat) (raw obs : PState) : M Bool := do
   let pol := (← get).policy
-  if raw.n != obs.n then bad ln s!"{what}: space dimension {obs.n}, expected {raw.n}"
-  else
-    match compSubset raw.n obs.c1 raw.c1, compSubset raw.n obs.c2 raw.c2 with
-    | some true, some true =>
-      if ← verdictIncl ln s!"{what}: the reduction lost a common point of the components" (meetSubset raw obs) then
-        if (pol == "smash" || pol == "constraints") && (obs.c1.isEmptyC obs.n != obs.c2.isEmptyC obs.n) then
-          bad ln s!"smash_propagation: after the {pol} reduction exactly one component is empty (Smash_Reduction propagates emptiness)"
-        else match raw.meet?, obs.meet? with
-        | some _, some _ => ok ln
-        | _, _ => IO.println s!"ok {ln} sampled"; modify fun st => { st with nOk := st.nOk + 1 }
-    | some false, _ => bad ln s!"{what}: component 1 is not contained in the component it was reduced from"
-    | _, some false => bad ln s!"{what}: component 2 is not contained in the component it was reduced from"
-    | _, _ => skip ln "component-kind"
+  if raw.n != obs.n then bad ln s!"reduce: space dimension {obs.n}, expected {raw.n}"; return false
+  match compSubset raw.n obs.c1 raw.c1, compSubset raw.n obs.c2 raw.c2 with
+  | some false, _ => bad ln "reduce: component 1 is not contained in the component it was reduced from"; return false
+  | _, some false => bad ln "reduce: component 2 is not contained in the component it was reduced from"; return false
+  | some true, some true =>
+    match meetSubset raw obs with
+    | .no why => bad ln s!"reduce: the reduction lost a common point of the components ({why})"; return false
+    | r =>
+      if (pol == "smash" || pol == "constraints") && (obs.c1.isEmptyC obs.n != obs.c2.isEmptyC obs.n) then
+        bad ln s!"smash_propagation: after the {pol} reduction exactly one component is empty (Smash_Reduction propagates emptiness)"
+        return false
+      match r with
+      | .enumOk k ex => okEnum ln k ex
+      | _ => ok ln
+      return true
+  | _, _ => skip ln "component-kind"; return true
 
-/-- the lower bound `image(meet of the raw operands) ⊆ meet(obs)` of an operator that reduces first -/
-def judgeImplicit (ln : Nat) (name : String) (args : List String) (x : PState) (y : Option PState)
-    (cw obs : PState) : M Unit := do
-  let n := x.n
-  -- upper bound (monotone operators): components within the component-wise result on the raw operands
-  let monotone := name != "diff"
-  let up1 := if monotone then compSubset obs.n obs.c1 cw.c1 else some true
-  let up2 := if monotone then compSubset obs.n obs.c2 cw.c2 else some true
-  if up1 == some false || up2 == some false then
-    bad ln s!"{name}: a component exceeds the component-wise result on the unreduced operands"
-  else
-    let exactPair := x.meet?.isSome && obs.meet?.isSome && (y.map (·.meet?.isSome)).getD true
-    if exactPair then
-      let mx := x.meet?.getD []
-      let mo := obs.meet?.getD []
-      let my := (y.bind (·.meet?)).getD []
-      let lower : DNF :=
-        if name == "unconstrain" then [(RefPoly.unconstrain ⟨true, n, mx⟩ [tokNat (args.headD "0")]).cs]
-        else if name == "ub" then [mx, my]
-        else if name == "diff" then dnfMinus n [mx] [my]
-        else if name == "time_elapse" then (if feasible n my then [mx] else [])
-        else []
-      if dnfSubsetF n lower [mo] then ok ln
-      else bad ln s!"{name}: the result does not contain the exact image of the operands' intersections"
-    else
-      -- sampling
-      let sx := x.samples
-      let sy := (y.map (·.samples)).getD []
-      let cand : List (List Rat) :=
-        if name == "unconstrain" then
-          let v := tokNat (args.headD "0")
-          sx.flatMap fun p => [(-2 : Rat), -1, 0, 1, 3].map fun d => p.set v (p.getD v 0 + d)
-        else if name == "ub" then sx ++ sy
-        else if name == "diff" then sx.filter fun p => !((y.map (·.mem p)).getD false)
-        else if name == "time_elapse" then (if sy.isEmpty then [] else sx)
-        else []
-      -- `unconstrain` leaves the lattice: only the non-grid component can be sampled soundly
-      let cand := if name == "unconstrain" then [] else cand
-      match cand.find? (fun p => !obs.mem p) with
-      | some p => bad ln s!"{name}: the result lost the point {p} of the exact image"
-      | none =>
-        modify fun st => { st with nSampled := st.nSampled + cand.length, nOk := st.nOk + 1 }
-        IO.println s!"ok {ln} sampled"
+def getP (s : String) : M PSlot := do return (← get).pslots.getD (tokNat s) {}
+def setP (s : String) (p : PSlot) : M Unit :=
+  modify fun st => { st with pslots := st.pslots.setIfInBounds (tokNat s) p }
 
-def judgePQ (ln : Nat) (st : St) (s : String) (qn : String) (rest : List String) : M Unit := do
-  match st.pcur.getD (tokNat s) none with
-  | none => skip ln "unknown-slot"
+/-- an observation: (A) it is a reduction of the claimed raw components, (B) it contains the exact
+    image (K1) of the last observed intersection through the operators applied since, (C) it contains
+    the pointwise witnesses of that image -/
+def judgeObs (ln : Nat) (s : String) (obs : PState) : M Unit := do
+  let P ← getP s
+  let mut fine := true
+  match P.raw with
+  | some raw => fine ← judgeReduce ln raw obs
+  | none => pure ()
+  if fine then
+    match P.low, obs.meet? with
+    | some (nl, L), some mo =>
+      if nl != obs.n then bad ln s!"transformer: space dimension {obs.n}, the specification gives {nl}"; fine := false
+      else if !(tooBig L [mo]) && !dnfSubsetF obs.n L [mo] then
+        let c1ok := match obs.c1.asPoly? with | some c => dnfSubsetF obs.n L [c] | none => true
+        let which := if !c1ok then "1" else "2"
+        bad ln s!"transformer: the result's intersection does not contain the exact image of the argument's intersection (K1) (component {which})"
+        fine := false
+      else if P.raw.isNone then ok ln
+    | _, _ => pure ()
+  if fine then
+    let ptsOk := P.pts.filter fun p => p.length == obs.n
+    match ptsOk.find? fun p => !obs.mem p with
+    | some p =>
+      let which := if !obs.c1.mem p then "1" else "2"
+      bad ln s!"transformer: the result lost the point {p} of the exact image (component {which})"
+    | none =>
+      if P.raw.isNone && (P.low.isNone || obs.meet?.isNone) then okEnum ln ptsOk.length false
+      else modify fun st => { st with nSampled := st.nSampled + ptsOk.length }
+  let (w, _) := obs.witnesses
+  setP s { cur := some obs, raw := some obs, low := obs.meet?.map fun m => (obs.n, [m]),
+           pts := thin 250 w, exact := true }
+
+def applyPop (s : String) (name : String) (args : List String) : M Unit := do
+  let P ← getP s
+  let st ← get
+  -- the argument of a binary operator is the last token
+  let binary := ["meet", "ub", "diff", "concat", "time_elapse", "widen"].contains name
+  let T : PSlot := if binary then st.pslots.getD (tokNat (args.getLastD "0")) {} else {}
+  let n := match P.low, P.cur with
+    | some (n, _), _ => n
+    | _, some c => c.n
+    | _, _ => (P.pts.headD []).length
+  let Mt := if T.exact then T.cur.bind (·.meet?) else none
+  let memT : Option (List Rat → Bool) := if name == "diff" && !T.exact then none else T.cur.map fun c => c.mem
+  let low' := P.low.bind fun (nl, L) => imageDNF nl L name args T.low Mt
+  let pts' := thin 400 (imagePts n P.pts name args T.pts memT)
+  setP s { cur := none, raw := none, low := low', pts := pts', exact := false }
+
+def supOfMeet (n : Nat) (m : List Con) (e : LinExpr) : Sup := supB n e.coeffs e.k m
+
+/-- the values of `e` over a convex set: does the interval contain a multiple of `md` (`md > 0`)? -/
+def intervalHitsClass (lo hi : Sup) (md : Int) : Bool :=
+  -- lo is the supremum of -e
+  match lo, hi with
+  | .empty, _ => false
+  | _, .empty => false
+  | .unbounded, _ => true
+  | _, .unbounded => true
+  | .val nl ql al, .val nh qh ah =>
+    -- inf = -nl/ql (attained al), sup = nh/qh (attained ah)
+    let inf : Rat := -((nl : Rat) / (ql : Rat))
+    let sup : Rat := (nh : Rat) / (qh : Rat)
+    let m : Rat := (md : Rat)
+    let jlo := ratCeil (inf / m)
+    let jlo := if !al && ((jlo : Rat) * m == inf) then jlo + 1 else jlo
+    let jhi := ratFloor (sup / m)
+    let jhi := if !ah && ((jhi : Rat) * m == sup) then jhi - 1 else jhi
+    decide (jlo ≤ jhi)
+
+def judgePQ (ln : Nat) (s : String) (qn : String) (rest : List String) : M Unit := do
+  let st ← get
+  let P ← getP s
+  match P.cur with
+  | none => skip ln "state-unknown"
   | some p =>
     let n := p.n
     let a0 := rest.getD 0 ""
     let a1 := rest.getD 1 ""
-    let other (t : String) : Option PState := st.pcur.getD (tokNat t) none
-    match p.meet? with
-    | some m =>
-      -- exact judgement of the definite answers on the intersection
-      let definite (ans : String) (truth : Bool) (what : String) : M Unit :=
-        if ans == "1" && !truth then bad ln s!"{what}: library answers true, the intersection dictates false" else ok ln
-      if qn == "is_empty" then definite a0 (!feasible n m) "is_empty"
-      else if qn == "is_universe" then definite a0 (subsetB n [] m) "is_universe"
-      else if qn == "is_bounded" then definite a0 ((RefPoly.mk true n m).isBounded || !feasible n m) "is_bounded"
-      else if qn == "contains" || qn == "strictly_contains" then
-        match (other a0).bind (·.meet?) with
-        | some mt => definite a1 (subsetB n mt m) qn
-        | none => skip ln "other-not-expressible"
-      else if qn == "disjoint" then
-        match (other a0).bind (·.meet?) with
-        | some mt => definite a1 (disjointB n m mt) "is_disjoint_from"
-        | none => skip ln "other-not-expressible"
-      else if qn == "bounds_above" || qn == "bounds_below" then
-        let (e, r) := parseExpr n rest
-        let e' := if qn == "bounds_above" then e else negExpr e
-        definite (r.getD 0 "") (match supB n e'.coeffs e'.k m with | .unbounded => false | _ => true) qn
-      else if qn == "max" || qn == "min" then
-        let (e, r) := parseExpr n rest
-        match r with
-        | [num, den, _] =>
+    let other (t : String) : Option PState := (st.pslots.getD (tokNat t) {}).cur
+    let (ss, exh) := match p.meet? with
+      | some _ => (([] : List (List Rat)), false)
+      | none => p.witnesses
+    let definite (ans : String) (truth : Bool) (what : String) : M Unit :=
+      if ans == "1" && !truth then bad ln s!"{what}: library answers true, the intersection dictates false" else ok ln
+    let refute (ans : String) (cex : Option (List Rat)) (what : String) : M Unit :=
+      match ans, cex with
+      | "1", some x => bad ln s!"{what}: library answers true, refuted by the common point {x}"
+      | _, _ => okEnum ln ss.length exh
+    let relFlags (rows hyper : List Con) (fd fs fi fsat : String) (what : String) : M Unit :=
+      match p.meet? with
+      | some m =>
+        let dj := disjointB n m rows
+        let inc := subsetB n m rows
+        if fd == "1" && !dj then bad ln s!"{what}: is_disjoint reported, the intersection meets it"
+        else if fi == "1" && !inc then bad ln s!"{what}: is_included reported, the intersection is not included"
+        else if fsat == "1" && !subsetB n m hyper then bad ln s!"{what}: saturates reported, the intersection does not saturate"
+        else if fs == "1" && (dj || inc) then bad ln s!"{what}: strictly_intersects reported, the intersection is {if dj then "disjoint" else "included"}"
+        else ok ln
+      | none =>
+        if fd == "1" && ss.any (allHold rows) then bad ln s!"{what}: is_disjoint reported, refuted by a common point"
+        else match (if fi == "1" then ss.find? (fun x => !allHold rows x) else none) with
+          | some x => bad ln s!"{what}: is_included reported, refuted by the common point {x}"
+          | none =>
+            if fsat == "1" && ss.any (fun x => !allHold hyper x) then bad ln s!"{what}: saturates reported, refuted by a common point"
+            else okEnum ln ss.length exh
+    if qn == "is_empty" then
+      match p.meet? with
+      | some m => definite a0 (!feasible n m) "is_empty"
+      | none => refute a0 ss.head? "is_empty"
+    else if qn == "is_universe" then
+      match p.meet? with
+      | some m => definite a0 (subsetB n [] m) "is_universe"
+      | none => definite a0 false "is_universe"
+    else if qn == "is_bounded" then
+      match p.meet? with
+      | some m => definite a0 ((RefPoly.mk true n m).isBounded || !feasible n m) "is_bounded"
+      | none => skip ln "grid-pair-not-judged"
+    else if qn == "is_discrete" then
+      match p.meet? with
+      | some m => definite a0 (!feasible n m || (RefPoly.mk true n m).affineDim == 0) "is_discrete"
+      | none => skip ln "grid-pair-not-judged"
+    else if qn == "is_closed" then
+      match p.meet? with
+      | some m => definite a0 ((RefPoly.mk true n m).isClosed) "is_topologically_closed"
+      | none => skip ln "grid-pair-not-judged"
+    else if qn == "constrains" then
+      match p.meet? with
+      | some m => definite a1 (!feasible n m || (RefPoly.mk true n m).constrains (tokNat a0)) "constrains"
+      | none => skip ln "grid-pair-not-judged"
+    else if qn == "contains" || qn == "strictly_contains" then
+      match other a0 with
+      | none => skip ln "unknown-slot"
+      | some t =>
+        match p.meet?, t.meet? with
+        | some m, some mt => definite a1 (subsetB n mt m) qn
+        | _, _ => let (ts, _) := t.witnesses; refute a1 (ts.find? fun x => !p.mem x) qn
+    else if qn == "disjoint" then
+      match other a0 with
+      | none => skip ln "unknown-slot"
+      | some t =>
+        match p.meet?, t.meet? with
+        | some m, some mt => definite a1 (disjointB n m mt) "is_disjoint_from"
+        | _, _ =>
+          let (ts, _) := t.witnesses
+          let pts := if p.meet?.isSome then (p.witnesses).1 else ss
+          refute a1 ((pts.find? fun x => t.mem x).orElse fun _ => ts.find? fun x => p.mem x) "is_disjoint_from"
+    else if qn == "bounds_above" || qn == "bounds_below" then
+      let (e, r) := parseExpr n rest
+      let e' := if qn == "bounds_above" then e else negExpr e
+      match p.meet? with
+      | some m => definite (r.getD 0 "") (match supOfMeet n m e' with | .unbounded => false | _ => true) qn
+      | none => skip ln "grid-pair-not-judged"
+    else if qn == "max" || qn == "min" then
+      let (e, r) := parseExpr n rest
+      match r with
+      | num :: den :: _ =>
+        match p.meet? with
+        | some m =>
           let e' := if qn == "max" then e else negExpr e
           let (nu, de) := if qn == "max" then (tokInt num, tokInt den) else (- tokInt num, tokInt den)
-          (match supB n e'.coeffs e'.k m with
+          (match supOfMeet n m e' with
            | .val a b _ => if decide (a * de ≤ nu * b) then ok ln
-                           else bad ln s!"{qn}: library bound {num}/{den} is not a bound of the intersection (optimum {a}/{b})"
-           | .unbounded => bad ln s!"{qn}: library bound {num}/{den}, the intersection is unbounded"
+                           else bad ln s!"{qn}: the reported bound {num}/{den} is not a bound of the intersection (optimum {if qn == "max" then a else -a}/{b})"
+           | .unbounded => bad ln s!"{qn}: reported bound {num}/{den}, the intersection is unbounded"
            | .empty => ok ln)
-        | _ => ok ln
-      else if qn == "relcon" then
-        let (rows, r') := parseCon n rest
-        match r' with
-        | [fd, _, fi, fsat] =>
-          let rel := rest.getD 0 ""
-          let k := rest.getD 1 ""
-          let cf := (takeInts n (rest.drop 2)).1
-          let hyper := eqRows cf (tokInt k)
-          let rows' := if rel == "=" then hyper else rows
-          if fd == "1" && !disjointB n m rows' then bad ln "relation_with(constraint): is_disjoint reported, the intersection meets the constraint"
-          else if fi == "1" && !subsetB n m rows' then bad ln "relation_with(constraint): is_included reported, the intersection is not included"
-          else if fsat == "1" && !subsetB n m hyper then bad ln "relation_with(constraint): saturates reported, the intersection does not saturate"
-          else ok ln
-        | _ => skip ln "parse"
-      else skip ln s!"unknown-query {qn}"
-    | none =>
-      -- grid pair: refutation by sampled common points
-      let ss := p.samples
-      let refute (ans : String) (cex : Option (List Rat)) (what : String) : M Unit :=
-        match ans, cex with
-        | "1", some x => bad ln s!"{what}: library answers true, refuted by the common point {x}"
-        | _, _ => do
-          modify fun st => { st with nSampled := st.nSampled + ss.length, nOk := st.nOk + 1 }
-          IO.println s!"ok {ln} sampled"
-      if qn == "is_empty" then refute a0 ss.head? "is_empty"
-      else if qn == "contains" || qn == "strictly_contains" then
-        match other a0 with
-        | some t => refute a1 (t.samples.find? fun x => !p.mem x) qn
-        | none => skip ln "unknown-slot"
-      else if qn == "disjoint" then
-        match other a0 with
-        | some t => refute a1 (ss.find? fun x => t.mem x) "is_disjoint_from"
-        | none => skip ln "unknown-slot"
-      else if qn == "relcon" then
-        let (rows, r') := parseCon n rest
-        match r' with
-        | [fd, _, fi, fsat] =>
-          let rel := rest.getD 0 ""
-          let k := rest.getD 1 ""
-          let cf := (takeInts n (rest.drop 2)).1
-          let hyper := eqRows cf (tokInt k)
-          let rows' := if rel == "=" then hyper else rows
-          if fd == "1" && ss.any (allHold rows') then bad ln "relation_with(constraint): is_disjoint reported, refuted by a sampled common point"
-          else if fi == "1" && ss.any (fun x => !allHold rows' x) then bad ln "relation_with(constraint): is_included reported, refuted by a sampled common point"
-          else if fsat == "1" && ss.any (fun x => !allHold hyper x) then bad ln "relation_with(constraint): saturates reported, refuted by a sampled common point"
-          else refute "0" none "relcon"
-        | _ => skip ln "parse"
-      else if qn == "max" || qn == "min" then
-        let (e, r) := parseExpr n rest
-        match r with
-        | [num, den, _] =>
+        | none =>
           let v : Rat := (tokInt num : Rat) / (tokInt den : Rat)
           let val (x : List Rat) : Rat := dotQ e.coeffs x + (e.k : Rat)
-          let cex := ss.find? fun x => if qn == "max" then decide (v < val x) else decide (val x < v)
-          refute "1" cex qn
-        | _ => refute "0" none qn
-      else skip ln "grid-pair-not-judged"
+          refute "1" (ss.find? fun x => if qn == "max" then decide (v < val x) else decide (val x < v)) qn
+      | _ => ok ln
+    else if qn == "relcon" then
+      let (rows, r') := parseCon n rest
+      match r' with
+      | [fd, fs, fi, fsat] =>
+        let rel := rest.getD 0 ""
+        let cf := (takeInts n (rest.drop 2)).1
+        let hyper := eqRows cf (tokInt (rest.getD 1 ""))
+        relFlags (if rel == "=" then hyper else rows) hyper fd fs fi fsat "relation_with(constraint)"
+      | _ => skip ln "parse"
+    else if qn == "relcg" then
+      let (c, r') := parseCgr1 n rest
+      match r' with
+      | [fd, _, fi, _] =>
+        if c.m == 0 then
+          let hyper := eqRows c.coeffs c.k
+          relFlags hyper hyper fd "0" fi "0" "relation_with(congruence)"
+        else match p.meet? with
+          | some m =>
+            let e : LinExpr := ⟨c.coeffs, c.k⟩
+            let hi := supOfMeet n m e
+            let lo := supOfMeet n m (negExpr e)
+            let emptyM := !feasible n m
+            let single := match lo, hi with
+              | .val nl ql _, .val nh qh _ => decide (-(nl * qh) = nh * ql)
+              | _, _ => false
+            let inc := emptyM || (single && intervalHitsClass lo hi c.m)
+            let dj := emptyM || !intervalHitsClass lo hi c.m
+            if fd == "1" && !dj then bad ln "relation_with(congruence): is_disjoint reported, the intersection meets it"
+            else if fi == "1" && !inc then bad ln "relation_with(congruence): is_included reported, the intersection is not included"
+            else ok ln
+          | none =>
+            if fd == "1" && ss.any (cgrHolds c) then bad ln "relation_with(congruence): is_disjoint reported, refuted by a common point"
+            else match (if fi == "1" then ss.find? (fun x => !cgrHolds c x) else none) with
+              | some x => bad ln s!"relation_with(congruence): is_included reported, refuted by the common point {x}"
+              | none => okEnum ln ss.length exh
+      | _ => skip ln "parse"
+    else if qn == "relgen" then
+      match rest with
+      | kd :: d :: r =>
+        let (cf, r') := takeInts n r
+        let sub := r'.getD 0 "0"
+        if kd == "p" then
+          let x : List Rat := cf.map fun (a : Int) => (a : Rat) / (tokInt d : Rat)
+          if sub == "1" && !p.mem x then bad ln s!"relation_with(generator): subsumes reported for the point {x}, which is not in the intersection"
+          else ok ln
+        else match p.meet? with
+          | some m =>
+            let rp : RefPoly := ⟨true, n, m⟩
+            let okRay := !feasible n m || (rp.hasRay cf && (kd != "l" || rp.hasRay (cf.map (- ·))))
+            if sub == "1" && !okRay then bad ln "relation_with(generator): subsumes reported for a ray/line that leaves the intersection"
+            else ok ln
+          | none => skip ln "grid-pair-not-judged"
+      | _ => skip ln "parse"
+    else skip ln s!"unknown-query {qn}"
 
 def processLine (ln : Nat) (line : String) : M Unit := do
   let ts := (line.trimAscii.toString.splitOn " ").filter (· ≠ "")
@@ -533,7 +836,7 @@ def processLine (ln : Nat) (line : String) : M Unit := do
   | "hist" :: _ :: _ :: dom :: more =>
     modify fun s => { s with dom := dom, policy := more.getD 1 "", slots := Array.replicate 8 none, pend := Array.replicate 8 none,
                              hints := none, baseBroken := false, baseNote := "", lastRet := none,
-                             praw := Array.replicate 8 none, pcur := Array.replicate 8 none, pcw := none, pimp := none }
+                             pslots := Array.replicate 4 {} }
   | "new" :: s :: n :: k :: rest =>
     let nn := tokNat n
     setSlot (tokNat s) (some ⟨nn, (parseDNF nn (tokNat k) rest).1⟩); setPend (tokNat s) none
@@ -681,49 +984,28 @@ def processLine (ln : Nat) (line : String) : M Unit := do
         | _ => skip ln "parse"
       else if qn == "size" then pure ()
       else skip ln s!"unknown-query {qn}"
-  | "praw" :: s :: rest =>
-    modify fun st => { st with praw := st.praw.setIfInBounds (tokNat s) (parsePState rest),
-                               pcur := st.pcur.setIfInBounds (tokNat s) (parsePState rest) }
-  | "pnew" :: s :: _ =>
-    modify fun st => { st with praw := st.praw.setIfInBounds (tokNat s) none, pcur := st.pcur.setIfInBounds (tokNat s) none }
-  | ["pcopy", d, s] =>
-    modify fun st => { st with praw := st.praw.setIfInBounds (tokNat d) (st.praw.getD (tokNat s) none),
-                               pcur := st.pcur.setIfInBounds (tokNat d) (st.pcur.getD (tokNat s) none) }
-  | "pop" :: s :: _ =>
-    -- component-wise operator: the raw state will be printed before the next observation
-    modify fun st => { st with praw := st.praw.setIfInBounds (tokNat s) none, pcur := st.pcur.setIfInBounds (tokNat s) none }
-  | "pimp" :: s :: name :: args =>
-    modify fun st => { st with pimp := some (tokNat s, name, args), pcw := none }
-  | "pcw" :: _ :: rest => modify fun st => { st with pcw := parsePState rest }
+  | "pnew" :: s :: n :: _ =>
+    let nn := tokNat n
+    setP s { cur := none, raw := none, low := some (nn, [[]]),
+             pts := thin 200 (windowPoints nn (List.replicate nn (some (-2))) (List.replicate nn (some 2))), exact := false }
+  | "pgrid" :: s :: n :: rest =>
+    let nn := tokNat n
+    let (gs, _) := parseGGens nn rest
+    let (pts, _) := enumGrid nn gs (List.replicate nn (some (-4))) (List.replicate nn (some 4))
+    setP s { cur := none, raw := none, low := none, pts := thin 300 pts, exact := false }
+  | ["pcopy", d, s] => do
+    let P ← getP s
+    setP d P
+  | "praw" :: s :: rest => do
+    let P ← getP s
+    setP s { P with raw := parsePState rest, cur := parsePState rest }
+  | "pop" :: s :: name :: args => applyPop s name args
   | "pexp" :: _ => pure ()
-  | "pobs" :: s :: rest => do
-    let st ← get
-    let si := tokNat s
+  | "pobs" :: s :: rest =>
     match parsePState rest with
     | none => skip ln "parse"
-    | some obs =>
-      match st.pimp, st.pcw with
-      | some (sj, name, args), some cw =>
-        if sj == si then
-          match st.praw.getD si none with
-          | some x =>
-            let y := match args with
-              | [t] => if name == "unconstrain" then none else st.praw.getD (tokNat t) none
-              | _ => none
-            if name != "unconstrain" && y.isNone then skip ln "operand-unknown"
-            else judgeImplicit ln name args x y cw obs
-          | none => skip ln "operand-unknown"
-        else skip ln "pimp-slot"
-      | _, _ =>
-        match st.praw.getD si none with
-        | some raw => judgeReduce ln "reduce" raw obs
-        | none => skip ln "raw-unknown"
-      modify fun st => { st with praw := st.praw.setIfInBounds si (some obs), pcur := st.pcur.setIfInBounds si (some obs),
-                                 pimp := none, pcw := none }
-  | "pq" :: s :: qn :: rest => do
-    let st ← get
-    judgePQ ln st s qn rest
-    -- the predicate may have reduced the product: the next `pobs` is judged against the same raw state
+    | some obs => judgeObs ln s obs
+  | "pq" :: s :: qn :: rest => judgePQ ln s qn rest
   | "crash" :: sig => bad ln s!"crash {" ".intercalate sig}"
   | _ => pure ()
 
@@ -739,5 +1021,5 @@ partial def loop (h : IO.FS.Stream) (ln : Nat) : M Unit := do
 def main (_args : List String) : IO UInt32 := do
   let stdin ← IO.getStdin
   let ((), st) ← (loop stdin 1).run {}
-  IO.println s!"summary ok={st.nOk} mismatch={st.nBad} skipped={st.nSkip} notes={st.nNote} sampled={st.nSampled}"
+  IO.println s!"summary ok={st.nOk} mismatch={st.nBad} skipped={st.nSkip} notes={st.nNote} sampled={st.nSampled} exhaustive={st.nExactEnum}"
   return 0
